@@ -48,6 +48,7 @@ fn panic_key() -> &'static str {
         "C13:panic"
     }
 }
+const K_CHILD_DANGER: &str = "C13:union-seek-reads-child-doc-in-danger-zone";
 const K_BITSET: &str = "C13:bitset-seek-past-max-not-sticky";
 const K_NESTED_UNION: &str = "C13:nested-union-seek-danger-bound-overshoots";
 const K_S4: &str = "C13:union-fill-buffer-stale-scores";
@@ -228,6 +229,15 @@ impl T {
 }
 
 impl T {
+    fn has_inter(&self) -> bool {
+        match self {
+            T::Leaf { .. } => false,
+            T::Inter { .. } => true,
+            T::BUnion { cs, .. } | T::SUnion { cs } | T::Disj { cs, .. } => cs.iter().any(|c| c.has_inter()),
+            T::Excl { u, es, .. } => u.has_inter() || es.iter().any(|c| c.has_inter()),
+            T::ReqOpt { req, opt, .. } => req.has_inter() || opt.has_inter(),
+        }
+    }
     fn has_bunion(&self) -> bool {
         match self {
             T::Leaf { .. } => false,
@@ -306,7 +316,13 @@ fn build(t: &T) -> Built {
                 3 => Box::new(AllScorer::new(docs.len() as u32)),
                 _ => Box::new(EmptyScorer),
             };
-            Built { scorer, model: format!("v;{};{}", crate::model::nat_list(docs), score), dense: false }
+            let model = if *kind == 2 {
+                let max = docs.last().map(|d| d + 1).unwrap_or(1) + (*score % 3) * 40;
+                format!("bs;{};{};{}", crate::model::nat_list(docs), max, score)
+            } else {
+                format!("v;{};{}", crate::model::nat_list(docs), score)
+            };
+            Built { scorer, model, dense: false }
         }
         T::BUnion { sum, cs, num_docs } => {
             let bs: Vec<Built> = cs.iter().map(build).collect();
@@ -471,7 +487,12 @@ fn gen_tree(rng: &mut Rng, depth: usize, max_doc: u32, pool: &mut Vec<Vec<u32>>)
         }
         4..=6 => {
             let n = *rng.pick(&[2usize, 2, 3, 4]);
-            T::Inter { cs: (0..n).map(|_| gen_tree(rng, depth - 1, max_doc, pool)).collect(), num_docs }
+            // `count_including_deleted` picks its branch from `left.size_hint()` at call time, which
+            // for union children depends on how many of their children are left; size hints are not
+            // modelled, so the branch is made independent of the state: segment_num_docs = 0 always
+            // takes the dense branch, u32::MAX the sparse one
+            let _ = num_docs;
+            T::Inter { cs: (0..n).map(|_| gen_tree(rng, depth - 1, max_doc, pool)).collect(), num_docs: if rng.chance(1, 2) { 0 } else { u32::MAX } }
         }
         7 | 8 => {
             let n = *rng.pick(&[1usize, 1, 2, 3]);
@@ -994,79 +1015,127 @@ fn check_direct(ctx: &mut Ctx, t: &T, prog: &[Call], label: &str) -> bool {
             return true;
         }
     };
-    if fdocs != all {
-        let i = fdocs.iter().zip(all.iter()).position(|(a, b)| a != b).unwrap_or(fdocs.len().min(all.len()));
-        let key = attribute(t, &[], &[], "C13:advance-sequence-wrong", "");
-        ctx.report.violation("oracle", &key, format!("{top}: plain advance enumerates {} docs, brute force {}; first difference at index {i}: {:?} vs {:?}", fdocs.len(), all.len(), fdocs.get(i), all.get(i)), case);
-        return true;
-    }
-    for (d, s) in fdocs.iter().zip(fscores.iter()) {
-        let e = t.score_at(*d).unwrap_or(0) as f32;
-        if *s != e {
-            ctx.report.violation("oracle", "C13:advance-score-wrong", format!("{top}: fresh scorer advanced to {d} scores {s}, brute force {e}"), case);
-            return true;
+    if label != "fresh" {
+        if fdocs != all {
+            // plain advance itself deviates: judge (and attribute) it as the program `d, a, a, …`
+            let mut p = vec![Call::Doc];
+            p.extend(std::iter::repeat(Call::Adv).take(all.len().max(fdocs.len()) + 1));
+            return check_direct(ctx, t, &p, "fresh");
+        }
+        for (d, s) in fdocs.iter().zip(fscores.iter()) {
+            let e = t.score_at(*d).unwrap_or(0) as f32;
+            if *s != e {
+                ctx.report.violation("oracle", "C13:advance-score-wrong", format!("{top}: fresh scorer advanced to {d} scores {s}, brute force {e}"), case);
+                return true;
+            }
         }
     }
     // the program on the real scorer
     let mut obs = vec![];
     let mut docs_after = vec![];
     let mut incons = vec![];
-    let mut dense = false;
     let res = catch_unwind(AssertUnwindSafe(|| {
         let mut b = build(t);
-        dense = b.dense;
         let model = b.model.clone();
         run_real(b.scorer.as_mut(), prog, &mut obs, &mut docs_after, &mut incons);
         model
     }));
-    let mut reported = false;
-    let model_tree = match res {
-        Ok(m) => Some(m),
+    let tree = match res {
+        Ok(m) => m,
         Err(_) => {
             ctx.report.violation("oracle", "C13:panic", format!("{top}: panic at call {} ({}) of a legal program: {}", obs.len(), prog.get(obs.len()).map(|c| c.text()).unwrap_or_default(), last_panic()), case.clone());
-            reported = true;
-            None
-        }
-    };
-    if let Some(x) = incons.first() {
-        ctx.report.violation("oracle", "C13:return-differs-from-doc", format!("{top}: {x}"), case.clone());
-        reported = true;
-    }
-    let score_of = |d: u32| -> Option<String> { fdocs.binary_search(&d).ok().map(|i| fmt_score(fscores[i])) };
-    let v = judge_oracle(top, dense, &all, prog, &obs, &docs_after, &score_of, false);
-    let mut new_oracle = false;
-    let mut bitset_finding = false;
-    for (key, what) in &v.oracle {
-        let key = attribute(t, prog, &obs, key, what);
-        bitset_finding |= key == K_BITSET;
-        if !KNOWN_KEYS.contains(&key.as_str()) {
-            new_oracle = true;
-        }
-        ctx.report.violation("oracle", &key, format!("{top}: {what}"), case.clone());
-        reported = true;
-    }
-    // correspondence with the Lean implementation-level model, call by call
-    if let Some(tree) = model_tree {
-        let resp = ctx.model.ask(&format!("C13 run {tree} {ptext}"));
-        let mobs: Vec<&str> = if prog.is_empty() { vec![] } else { resp.split(';').collect() };
-        if resp == "bad-op" || mobs.len() != prog.len() {
-            ctx.report.violation("model", "C13:model-rejects-case", format!("model answered {} for a generated case", &resp[..resp.len().min(60)]), case.clone());
             return true;
         }
-        for i in 0..obs.len() {
-            if obs[i] != mobs[i] {
-                // a disagreement already explained by a new oracle violation at or before this call is
-                // reported once, as the oracle violation
-                // (the model's leaf is the lawful vector contract, which is what BitSetDocSet breaks)
-                if !new_oracle && !bitset_finding {
-                    ctx.report.violation("model", "C13:model-mismatch", format!("{top}: call {i} {}: real {} vs model {}", prog[i].text(), obs[i], mobs[i]), case.clone());
-                    reported = true;
+    };
+    if label == "replay" {
+        ctx.report.notes.push(format!("model tree: {tree}"));
+    }
+    // expected scores: the brute-force combination (equal to the fresh scorer's, checked above)
+    let score_of = |d: u32| -> Option<String> { t.score_at(d).map(|x| format!("x:{x}")) };
+    let mut first: Option<(String, String)> = incons.first().map(|x| ("C13:return-differs-from-doc".to_string(), x.clone()));
+    if first.is_none() {
+        first = judge_oracle("direct", false, &all, prog, &obs, &docs_after, &score_of, false).oracle.into_iter().next();
+    }
+    // the Lean implementation-level model of the code as it is, call by call (incl. doc() after each call)
+    let m0 = model_run(ctx, "-", &tree, prog);
+    let Some((mobs, mdocs)) = m0 else {
+        ctx.report.violation("model", "C13:model-rejects-case", "the model rejected a generated case".to_string(), case.clone());
+        return true;
+    };
+    let mismatch = (0..obs.len()).find(|&i| obs[i] != mobs[i] || docs_after[i] != mdocs[i]);
+    let Some((key0, what0)) = first else {
+        // the implementation satisfies the oracle: the model must agree with it
+        if let Some(i) = mismatch {
+            ctx.report.violation("model", "C13:model-mismatch", format!("{top}: call {i} {}: real {} (doc after {}) vs model {} (doc after {})", prog[i].text(), obs[i], docs_after[i], mobs[i], mdocs[i]), case.clone());
+            return true;
+        }
+        return false;
+    };
+    // The implementation deviates from the specification. Attribution (DESIGN §4.4): known finding(s) K
+    // iff (i) the model of the code as it is reproduces the real observations exactly and (ii) the
+    // same model with exactly the hypotheses of K enforced reproduces the specification's.
+    let mut explained: Option<Vec<&'static str>> = None;
+    if mismatch.is_none() {
+        let mut flags: Vec<(&'static str, &'static str)> = vec![];
+        if t.has_bunion() {
+            flags.extend([("dw", K_NESTED_UNION), ("du", K_CHILD_DANGER), ("fc", K_S4), ("fs", K_FILL_SCORE), ("cu", K_UNION_COUNT)]);
+        }
+        if t.has_inter() {
+            flags.push(("ci", K_INTER_COUNT));
+        }
+        if t.has_bitset() {
+            flags.push(("bs", K_BITSET));
+        }
+        let n = flags.len();
+        let mut subsets: Vec<u32> = (1u32..(1 << n)).collect();
+        subsets.sort_by_key(|m| m.count_ones());
+        for m in subsets {
+            let sel: Vec<usize> = (0..n).filter(|i| m & (1 << i) != 0).collect();
+            let fix = sel.iter().map(|i| flags[*i].0).collect::<Vec<_>>().join(",");
+            ctx.report.count("attribution:model-runs");
+            if let Some((o, d)) = model_run(ctx, &fix, &tree, prog) {
+                if judge_oracle("direct", false, &all, prog, &o, &d, &score_of, false).oracle.is_empty() {
+                    explained = Some(sel.iter().map(|i| flags[*i].1).collect());
+                    break;
                 }
-                break;
             }
         }
     }
-    reported
+    match explained {
+        Some(keys) => {
+            for k in keys {
+                ctx.report.violation("oracle", k, format!("{top}: {what0}"), case.clone());
+            }
+        }
+        None => {
+            ctx.report.violation("oracle", &key0, format!("{top}: {what0}"), case.clone());
+            if let Some(i) = mismatch {
+                ctx.report.violation("model", "C13:model-mismatch", format!("{top}: call {i} {}: real {} (doc after {}) vs model {} (doc after {})", prog[i].text(), obs[i], docs_after[i], mobs[i], mdocs[i]), case.clone());
+            }
+        }
+    }
+    true
+}
+
+/// run the Lean implementation-level model with the hypotheses `fix` enforced (`-`: the code as it
+/// is); returns the per-call observations and `doc()` after each call
+fn model_run(ctx: &mut Ctx, fix: &str, tree: &str, prog: &[Call]) -> Option<(Vec<String>, Vec<u32>)> {
+    if prog.is_empty() {
+        return Some((vec![], vec![]));
+    }
+    let ptext = prog.iter().map(|c| format!("{};d", c.text())).collect::<Vec<_>>().join(";");
+    let resp = ctx.model.ask(&format!("C13 runh {fix} {tree} {ptext}"));
+    let parts: Vec<&str> = resp.split(';').collect();
+    if resp == "bad-op" || parts.len() != 2 * prog.len() {
+        return None;
+    }
+    let mut obs = vec![];
+    let mut docs = vec![];
+    for i in 0..prog.len() {
+        obs.push(parts[2 * i].to_string());
+        docs.push(parts[2 * i + 1].parse().ok()?);
+    }
+    Some((obs, docs))
 }
 
 // ------------------------------------------------------------------------------------------
@@ -1331,6 +1400,37 @@ fn check_query(ctx: &mut Ctx, index: &Index, text: tantivy::schema::Field, spec:
             .ok()?;
             Some((o, d))
         };
+        let idx: usize = what.strip_prefix("call ").or_else(|| what.strip_prefix("after call ")).and_then(|r| r.split(' ').next()).and_then(|x| x.parse().ok()).unwrap_or(usize::MAX);
+        let seq_keys = ["C13:score-path-dependent", "C13:sequence-deviates", "C13:doc-after-call-deviates", "C13:seek-danger-bound-out-of-range",
+            "C13:seek-danger-missed-member", "C13:seek-danger-found-non-member", "C13:seek-danger-found-wrong-doc"];
+        if seq_keys.contains(&key.as_str()) && idx < prog.len() && prog[..=idx].iter().any(|c| matches!(c, Call::Danger(_))) {
+            // counterfactual for the seek_danger findings (5, 9): the same program with every
+            // seek_danger that finds its target replaced by seek, and the misses dropped
+            let mut cur = Cursor { all: &fdocs, pos: 0, danger: None, counted: false };
+            let mut prog2 = vec![];
+            for c in &prog[..=idx] {
+                if let Call::Danger(t) = c {
+                    let r = cur.step(c);
+                    if r == "F" {
+                        prog2.push(Call::Seek(*t));
+                    }
+                } else {
+                    prog2.push(c.clone());
+                    cur.step(c);
+                }
+            }
+            if cur.danger.is_none() {
+                if let Some((o2, d2)) = run_cf(&prog2) {
+                    if o2.len() == prog2.len() && judge_oracle("query", false, &fdocs, &prog2, &o2, &d2, &score_of, true).oracle.is_empty() {
+                        let k = if key == "C13:seek-danger-bound-out-of-range" { K_NESTED_UNION } else { K_CHILD_DANGER };
+                        ctx.report.count("query:counterfactual-confirms-seek-danger");
+                        ctx.report.violation("oracle", k, format!("{:?} (scoring {scoring}): {what}", q), case.clone());
+                        return;
+                    }
+                }
+            }
+            ctx.report.count("query:counterfactual-refutes-seek-danger");
+        }
         if key == "C13:score-path-dependent" {
             let i: usize = what.strip_prefix("call ").and_then(|r| r.split(' ').next()).and_then(|x| x.parse().ok()).unwrap_or(usize::MAX);
             if i < prog.len() && prog[..i].iter().any(|c| matches!(c, Call::Fill)) {
@@ -1440,6 +1540,12 @@ fn corpus(ctx: &mut Ctx) {
     let u = T::BUnion { sum: false, cs: vec![leaf(vec![0], 1), x], num_docs: 30_000 };
     let t5 = T::Inter { cs: vec![leaf(vec![0, 4600, 5000, 5010], 1), u], num_docs: 1_000_000 };
     check_direct(ctx, &t5, &[Call::Doc, Call::Adv, Call::Adv, Call::Adv], "corpus-nested-union-danger");
+    // finding 9 in the shape of the query `+l +((+x +y) z)` (docs 0:"l z" 1:"x y" 2,3:"y" 5000:"x y"
+    // 10000:"l z" 10005:"l x" 10010:"x y"): the real code also returns 10005
+    let xy = T::Inter { cs: vec![leaf(vec![1, 5000, 10005, 10010], 1), leaf(vec![1, 2, 3, 5000, 10010], 1)], num_docs: u32::MAX };
+    let u9 = T::BUnion { sum: true, cs: vec![xy, leaf(vec![0, 10000], 1)], num_docs: 10_011 };
+    let t9 = T::Inter { cs: vec![leaf(vec![0, 10000, 10005], 1), u9], num_docs: u32::MAX };
+    check_direct(ctx, &t9, &[Call::Doc, Call::Adv, Call::Adv, Call::Adv], "corpus-union-child-danger");
 }
 
 pub fn replay(ctx: &mut Ctx, case: &serde_json::Value) {
